@@ -389,3 +389,56 @@ CHECKS["C13"]["harnesses"].append(H_LEASE_REARM)
 CHECKS["C14"]["harnesses"].append(H_PROCRPC)
 CHECKS["C12"]["harnesses"].append(H_RESTORE)
 CHECKS["C19"]["harnesses"][2]["thorough"] = {"max_paths": 1500000, "max_seconds": 9000}
+
+# ---- round 4: crash-point enumeration, read faults, re-addressing, volatile flags ----
+CRASH_NOTE = ("crash points: every durable mutating call of the model stores (StableStore.Set/SetUint64, LogStore.StoreLogs/DeleteRange, StageCommitIndex, SnapshotSink.Close) is offered as "
+              "'the process dies before this call takes effect'; the REAL NewRaft then runs on the stores as they are. Each single store call is atomic (torn writes inside one call are outside the claim)")
+H_CRASH_AE = {"fn": "vh_crash_ae", "what": "appendEntries (same/newer term, truncation, append, staged commit index) x crash before any durable call or after completion x real NewRaft (with RestoreCommittedLogs on a commit-tracking store): "
+              "recovered server satisfies the representation invariant, term never regresses, vote record untouched, everything known committed survives identically, acknowledged entries are durable, replay hands the FSM only agreed entries",
+              "bounds_quick": "W=2, E<=2, leader commit index in {nothing, everything}, lastApplied = snapshot index, <=5 crash points per run (checked)", "bounds_thorough": "W=3, every commit/applied position",
+              "covers": ["crash.ae.crashed", "crash.ae.acked-then-crashed", "crash.ae.replayed", "crash.ae.end"], "opts": {"max_paths": 200000}, "thorough": {"max_paths": 2000000, "max_seconds": 7000}}
+H_CRASH_AE_THOROUGH = dict(H_CRASH_AE, quick={"skip": True})
+H_CRASH_VOTE = {"fn": "vh_crash_vote", "what": "requestVote x crash before any stable-store write or after the reply x real NewRaft x a second requestVote (same term or the old term, any candidate) on the recovered server: "
+                "a vote granted (or on record) before the crash binds the server afterwards; the replied term is durable; durable vote term never ahead of the durable term",
+                "bounds_quick": "N=1 server in the configuration, one log shape, <=4 crash points (checked)", "bounds_thorough": "N<=2, both absent-key conventions, all W=1 log shapes",
+                "covers": ["crash.vote.crashed", "crash.vote.granted-twice-same-term", "crash.vote.earlier-record-same-term", "crash.vote.end"], "opts": {"max_paths": 200000}, "thorough": {"max_paths": 2000000, "max_seconds": 7000}}
+H_CRASH_INSTALL = {"fn": "vh_crash_install", "what": "installSnapshot (real FSM goroutine) x crash point x real NewRaft: restart restores the old snapshot or the complete new one, an acknowledged snapshot is durable, nothing above the recovered snapshot is lost, "
+                   "nothing is compacted before the new snapshot is durable, recovered server satisfies the invariant (known finding D3 excepted)",
+                   "bounds": "W=2, plain and monotonic stores, snapshot index >= the follower's own snapshot index, <=5 crash points (checked)",
+                   "covers": ["crash.install.crashed", "crash.install.success-then-crashed", "crash.install.new-snapshot-recovered", "crash.install.old-snapshot-recovered"]}
+H_CRASH_SNAP = {"fn": "vh_crash_snapshot", "what": "takeSnapshot + compactLogs (real runFSM and runFollower goroutines, TrailingLogs 0..2) x crash point x real NewRaft: old or complete new snapshot, no compaction before durable, nothing above the recovered snapshot lost, invariant",
+                "bounds": "W=2, <=4 crash points (checked)", "covers": ["crash.snapshot.crashed", "crash.snapshot.new-snapshot-recovered", "crash.snapshot.old-snapshot-recovered"]}
+H_CRASH_RESTORE = {"fn": "vh_crash_user_restore", "what": "restoreUserSnapshot on a leader x crash point x real NewRaft: restart is entirely before the restore or entirely after it (user snapshot at the burned index restored into the FSM, burned index survives)",
+                   "bounds": "W=2, plain and monotonic stores, meta.Index <= last index, <=4 crash points (checked)", "covers": ["crash.restore.crashed", "crash.restore.user-snapshot-recovered", "crash.restore.old-state-recovered"]}
+H_PLFAULT = {"fn": "vh_processlogs_faults", "what": "processLogs whose log-store reads may fail, then a second processLogs (next commit advance): each committed index reaches the FSM at most once, in order; lastApplied covers what was handed over",
+             "bounds": "W=3, MaxAppendEntries in {1,2}, any two targets", "allow": ["PANIC"], "covers": ["plfault.fed", "plfault.panicked", "plfault.end"]}
+H_HB_READDR = {"fn": "vh_heartbeat_readdress", "what": "two heartbeat rounds with the follower re-addressed in between by the real startStopReplication: the second heartbeat goes to the new address", "bounds": "2 servers", "covers": ["readdress.end"]}
+H_NOOP_FAULT = {"fn": "vh_run_leader_noop_fault", "what": "a runLeader activation whose first log write (the no-op) fails: gain and loss are both announced, in order", "bounds": "2 voters, W=2, NotifyCh nil/buffered, LeaderCh empty or stale",
+                "covers": ["noopfault.stored", "noopfault.failed", "noopfault.end"]}
+H_APPLY_RACE = {"fn": "vh_leader_apply_racing_transfer", "what": "the applyCh case of leaderLoop with the transfer-in-progress flag VOLATILE: every atomic load of it returns an arbitrary value (the transfer supervisor goroutine resets it asynchronously); "
+                "a call answered with ErrLeadershipTransferInProgress was never given an index nor put in flight", "bounds": "W=3, 1-2 queued calls, every 0/1 value at every load", "covers": ["race.refused", "race.dispatched", "race.end"]}
+
+CHECKS["C10"]["harnesses"] += [H_CRASH_AE, H_CRASH_VOTE, H_CRASH_INSTALL, H_CRASH_SNAP, H_CRASH_RESTORE]
+CHECKS["C10"]["assumptions"] = CHECKS["C10"]["assumptions"] + [CRASH_NOTE, D3_NOTE]
+CHECKS["C10"]["explanation"] += (" CRASH-CLOSED: appendEntries, requestVote, installSnapshot, takeSnapshot+compactLogs and restoreUserSnapshot are each run from an arbitrary invariant-satisfying state with a crash before any one of their "
+                                 "durable store calls (or none); the real NewRaft then runs on the resulting stores and must return a server satisfying the representation invariant the step obligations start from, with the durable term, "
+                                 "the newest complete snapshot, the configuration, and everything that was known committed or acknowledged.")
+CHECKS["C10"]["outside"] = "real disk stores; torn writes inside a single store call; more than 128 batches to replay before runFSM starts (D6, found by the scratch probe, not encoded); crash points of leader-side dispatchLogs (its single StoreLogs is covered by vh_dispatch with a failing write)"
+CHECKS["C06"]["harnesses"] += [H_CRASH_VOTE, H_CRASH_AE_THOROUGH]
+CHECKS["C06"]["assumptions"] = CHECKS["C06"]["assumptions"] + [CRASH_NOTE]
+CHECKS["C06"]["explanation"] += " CRASH-SEQ: requestVote x crash at every stable-store write x real NewRaft x a second requestVote: a vote granted or on record before the crash still binds the server; the term a reply was sent under is durable."
+CHECKS["C01"]["harnesses"] += [H_CRASH_VOTE]
+CHECKS["C01"]["assumptions"] = CHECKS["C01"]["assumptions"] + [CRASH_NOTE]
+CHECKS["C03"]["harnesses"] += [H_CRASH_AE_THOROUGH]
+CHECKS["C04"]["harnesses"] += [H_CRASH_AE_THOROUGH]
+CHECKS["C02"]["harnesses"] += [H_CRASH_AE_THOROUGH, H_PLFAULT]
+CHECKS["C08"]["harnesses"] += [H_PLFAULT, H_APPLY_RACE]
+CHECKS["C08"]["assumptions"] = CHECKS["C08"]["assumptions"] + ["vh_leader_apply_racing_transfer: the leadershipTransferInProgress cell is volatile - each atomic load returns an arbitrary 0/1 (over-approximates every interleaving of the transfer goroutine's stores with the main loop's loads); all other state is single-goroutine"]
+CHECKS["C17"]["harnesses"] += [H_APPLY_RACE, H_NOOP_FAULT]
+CHECKS["C11"]["harnesses"] += [H_CRASH_INSTALL, H_CRASH_SNAP]
+CHECKS["C11"]["assumptions"] = CHECKS["C11"]["assumptions"] + [CRASH_NOTE]
+CHECKS["C11"]["explanation"] += " CRASH: installSnapshot and takeSnapshot+compactLogs with a crash before any durable call, then the real NewRaft: never a half-installed snapshot, no compaction before the snapshot is durable, nothing above the recovered snapshot lost."
+CHECKS["C20"]["harnesses"] += [H_CRASH_RESTORE]
+CHECKS["C20"]["assumptions"] = CHECKS["C20"]["assumptions"] + [CRASH_NOTE]
+CHECKS["C13"]["harnesses"] += [H_HB_READDR]
+CHECKS["C18"]["harnesses"] += [H_NOOP_FAULT]
